@@ -512,6 +512,12 @@ func c15History(g *sim.Genesis) sim.History {
 	}, emptyBlocks(8)...)}
 }
 
+// twoProposals: two proposals that apply at the same height and overlap in one field (the later key wins it,
+// every other field of both must survive).
+func twoProposals() []sim.TxSpec {
+	return []sim.TxSpec{prop("V0", 1, 1, 2, `{"gasPrice":"20","slashRatio":"40"}`), prop("V1", 1, 1, 2, `{"slashRatio":"60","minTrxGas":"6"}`)}
+}
+
 func c15Menu() []sim.TxSpec {
 	return []sim.TxSpec{
 		// core
@@ -542,14 +548,20 @@ func init() {
 				Core: coreAppend(blocksSet(2, 3, 4, 5), 12, 1)},
 			family{Name: "governance/two-proposals", Base: func() sim.History {
 				h := c15History(genesis3())
-				h.Blocks[2].Txs = []sim.TxSpec{prop("V0", 1, 1, 2, `{"gasPrice":"20"}`), prop("V1", 1, 1, 2, `{"slashRatio":"60"}`)}
+				h.Blocks[2].Txs = twoProposals()
 				h.Blocks[3].Txs = []sim.TxSpec{vote("V0", 0, 0), vote("V1", 0, 0), vote("V2", 0, 0), vote("V0", 1, 0), vote("V1", 1, 0), vote("V2", 1, 0)}
 				return h
 			}, Menu: c15Menu(), WithEnv: true, NAppend: 1, MaxD: 1, MaxDTh: 2},
 		)
+		fams = append(fams, family{Name: "governance/late-apply", Base: func() sim.History {
+			h := c15History(genesis3())
+			h.Blocks[2].Txs = []sim.TxSpec{prop("V0", 1, 1, 4, `{"gasPrice":"7","minTrxGas":"6"}`)}
+			h.Blocks[3].Txs = []sim.TxSpec{vote("V0", 0, 0), vote("V1", 0, 0), vote("V2", 0, 0)}
+			return h
+		}, Menu: c15Menu(), WithEnv: true, NAppend: 1, MaxD: 1, MaxDTh: 2})
 		return &modelCheck{id: "C15", owners: map[string]bool{"C15": true}, families: fams, extra: govProbe,
 			meta: modelMeta("deviation-bounded exhaustive history exploration with reference model of proposals, votes, tally and timed application",
-				"C15 families: 0-3 inserted governance transactions per block from a 24-template menu (proposals by validator / later-joined validator / delegator / stranger with start-period-applying heights from {invalid-early, minimal, later, too long, applying too early}, option documents {one field, several fields, two options, empty}; votes and re-votes by snapshot members, a validator that joined later, outsiders, bad choice; stake changes meanwhile), evidence against voters, and a family with two passed proposals applying at the SAME height; 10 blocks; D<=2 (thorough 3). "+
+				"C15 families: 0-3 inserted governance transactions per block from a 24-template menu (proposals by validator / later-joined validator / delegator / stranger with start-period-applying heights from {invalid-early, minimal, later, too long, applying too early}, option documents {one field, several fields, two options, empty}; votes and re-votes by snapshot members, a validator that joined later, outsiders, bad choice; stake changes meanwhile), evidence against voters, a family with two passed proposals applying at the SAME height, and one whose applying height lies several blocks after the close (parameters must not move before it); 10 blocks; D<=2 (thorough 3). "+
 					"Oracle: success conditions as necessary conditions (proposer in the validator set last reported, voter in the snapshot with the power recorded then, height inside the window, one vote per voter - the latest replaces); tally from the snapshot powers; pass iff at close some option >= floor(2T/3) of the recorded total; parameters unchanged before the applying height; after application every field the option leaves unset keeps its value (also relative to a second proposal applied in the same block); parameters in force == gov_params query == model at every height.")}
 	})
 }
